@@ -489,6 +489,12 @@ class CallGraph:
             out.add("*")
         return out
 
+    def writes_global(self, unit, call):
+        if not call.get("callee"):
+            return False
+        k = self.resolve(unit, call["callee"])
+        return bool(k and self.sum[k].wglobal)
+
     def reachable(self, roots):
         """Transitive closure of resolved callees from a set of function keys."""
         seen = set()
